@@ -72,6 +72,9 @@ pub struct DInc {
     pub panic_at: Option<u32>,
     pub io_err: Option<(u32, u32)>,
     pub restart_delay_ns: i64,
+    /// a third party overwrites a magic word of the segment file right before this incarnation
+    /// starts (clients may have the file mapped)
+    pub damage_before: bool,
 }
 
 #[derive(Clone, Debug)]
@@ -104,6 +107,7 @@ pub struct BCfg {
     /// 0 none, 1 configured and chronyd's reference matches, 2 configured but other reference,
     /// 3 matching with file faults (missing / garbage)
     pub phc: u8,
+    pub phc_name: u8,
     /// chronyd script style, see world_b_world.rs
     pub script: u8,
     pub tight_pct: u32,
@@ -127,8 +131,8 @@ impl BCfg {
             "profile": self.profile, "world_seed": self.world_seed, "drift_ppb": self.drift_ppb, "tick_ns": self.tick_ns,
             "start_mono_ns": self.start_mono_ns, "t0_ns": self.t0_ns, "horizon_ns": self.horizon_ns, "weak": self.weak, "stale_ppm": self.stale_ppm,
             "switch_ppm": self.switch_ppm, "step_cost_ns": self.step_cost_ns, "delay_ppm": self.delay_ppm, "clock_lag_ppm": self.clock_lag_ppm,
-            "clock_lag_max_ns": self.clock_lag_max_ns, "clock_read_cost_ns": self.clock_read_cost_ns, "clock_fail_ppm": self.clock_fail_ppm, "phc": self.phc, "script": self.script, "tight_pct": self.tight_pct,
-            "daemon": self.daemon.iter().map(|d| json!({"kill_at": d.kill_at, "panic_at": d.panic_at, "io_err": d.io_err.map(|(a, b)| vec![a, b]), "restart_delay_ns": d.restart_delay_ns})).collect::<Vec<_>>(),
+            "clock_lag_max_ns": self.clock_lag_max_ns, "clock_read_cost_ns": self.clock_read_cost_ns, "clock_fail_ppm": self.clock_fail_ppm, "phc": self.phc, "phc_name": self.phc_name, "script": self.script, "tight_pct": self.tight_pct,
+            "daemon": self.daemon.iter().map(|d| json!({"kill_at": d.kill_at, "panic_at": d.panic_at, "io_err": d.io_err.map(|(a, b)| vec![a, b]), "restart_delay_ns": d.restart_delay_ns, "damage_before": d.damage_before})).collect::<Vec<_>>(),
             "init_file": crate::world_a::corrupt_to_json(&self.init_file),
             "clients": self.clients.iter().map(|c| json!({"kind": c.kind, "calls": c.calls, "threshold_pct": c.threshold_pct, "start_ns": c.start_ns})).collect::<Vec<_>>(),
             "synthetic_cases": self.synthetic_cases, "pairs": self.pairs, "leap_base": self.leap_base, "hash_seed": self.hash_seed, "max_steps": self.max_steps,
@@ -156,13 +160,14 @@ impl BCfg {
             clock_read_cost_ns: v["clock_read_cost_ns"].as_i64().unwrap_or(0),
             clock_fail_ppm: u(&v["clock_fail_ppm"]) as u32,
             phc: u(&v["phc"]) as u8,
+            phc_name: v["phc_name"].as_u64().unwrap_or(0) as u8,
             script: u(&v["script"]) as u8,
             tight_pct: u(&v["tight_pct"]) as u32,
             daemon: v["daemon"]
                 .as_array()
                 .map(|a| {
                     a.iter()
-                        .map(|d| DInc { kill_at: opt_u(&d["kill_at"]), panic_at: opt_u(&d["panic_at"]), io_err: d["io_err"].as_array().map(|p| (u(&p[0]) as u32, u(&p[1]) as u32)), restart_delay_ns: i(&d["restart_delay_ns"]) })
+                        .map(|d| DInc { kill_at: opt_u(&d["kill_at"]), panic_at: opt_u(&d["panic_at"]), io_err: d["io_err"].as_array().map(|p| (u(&p[0]) as u32, u(&p[1]) as u32)), restart_delay_ns: i(&d["restart_delay_ns"]), damage_before: d["damage_before"].as_bool().unwrap_or(false) })
                         .collect()
                 })
                 .unwrap_or_default(),
@@ -207,10 +212,11 @@ pub fn gen_config(profile: Profile, run_seed: u64, index: u64) -> BCfg {
         clock_lag_max_ns: 50_000,
         clock_read_cost_ns: 0,
         clock_fail_ppm: if r.chance(15) { 3_000 } else { 0 },
-        phc: *r.pick(&[0u8, 0, 1, 2, 3]),
+        phc: *r.pick(&[0u8, 0, 1, 2, 3, 4]),
+        phc_name: r.below(8) as u8,
         script: 1,
         tight_pct: 30,
-        daemon: vec![DInc { kill_at: None, panic_at: None, io_err: None, restart_delay_ns: r.range(0, 30) * SEC }],
+        daemon: vec![DInc { kill_at: None, panic_at: None, io_err: None, restart_delay_ns: r.range(0, 30) * SEC, damage_before: false }],
         init_file: Corrupt::None,
         clients: Vec::new(),
         synthetic_cases: 0,
@@ -251,7 +257,8 @@ pub fn gen_config(profile: Profile, run_seed: u64, index: u64) -> BCfg {
             for _ in 0..n {
                 // ~60 scheduling points per poll-second
                 let kill = if r.chance(75) { Some(r.below(60 * 25) as u32) } else { None };
-                c.daemon.push(DInc { kill_at: kill, panic_at: None, io_err: None, restart_delay_ns: r.range(0, 12) * SEC });
+                let damage = !c.daemon.is_empty() && r.chance(25);
+                c.daemon.push(DInc { kill_at: kill, panic_at: None, io_err: None, restart_delay_ns: r.range(0, 12) * SEC, damage_before: damage });
             }
             c.horizon_ns = r.range(40, 120) * SEC;
         }
@@ -269,7 +276,7 @@ pub fn gen_config(profile: Profile, run_seed: u64, index: u64) -> BCfg {
                 c.step_cost_ns = 0;
                 c.delay_ppm = 0;
             }
-            c.phc = *r.pick(&[0u8, 1, 3, 3]);
+            c.phc = *r.pick(&[0u8, 1, 3, 3, 4]);
             c.horizon_ns = r.range(30, 120) * SEC;
         }
         Profile::Coldstart => {
@@ -280,16 +287,16 @@ pub fn gen_config(profile: Profile, run_seed: u64, index: u64) -> BCfg {
             c.daemon.clear();
             for _ in 0..n {
                 let kill = if r.chance(50) { Some(r.below(60 * 20) as u32) } else { None };
-                c.daemon.push(DInc { kill_at: kill, panic_at: None, io_err: None, restart_delay_ns: r.range(0, 8) * SEC });
+                c.daemon.push(DInc { kill_at: kill, panic_at: None, io_err: None, restart_delay_ns: r.range(0, 8) * SEC, damage_before: false });
             }
         }
         Profile::Workerdeath => {
             c.script = *r.pick(&[0u8, 1, 2]);
-            c.phc = *r.pick(&[0u8, 1, 3]);
+            c.phc = *r.pick(&[0u8, 1, 3, 4]);
             let n = r.range(1, 3) as usize;
             c.daemon.clear();
             for _ in 0..n {
-                let mut d = DInc { kill_at: None, panic_at: None, io_err: None, restart_delay_ns: r.range(0, 10) * SEC };
+                let mut d = DInc { kill_at: None, panic_at: None, io_err: None, restart_delay_ns: r.range(0, 10) * SEC, damage_before: false };
                 match r.below(10) {
                     // start-up failures: fault points 0..3 are writer:start, poller:start, writer:ready, first loops
                     0 | 1 => d.panic_at = Some(r.below(4) as u32),
@@ -313,7 +320,8 @@ pub fn gen_config(profile: Profile, run_seed: u64, index: u64) -> BCfg {
             c.clock_read_cost_ns = *r.pick(&[0i64, 0, 0, 1, 300, 700, 2_500]);
             c.delay_ppm = 0;
             c.clock_lag_ppm = 0;
-            c.clock_fail_ppm = 0;
+            // (clock failures only where the three libraries are not compared call by call)
+            c.clock_fail_ppm = if c.clock_read_cost_ns > 0 && r.chance(50) { 20_000 } else { 0 };
             c.weak = false;
             c.stale_ppm = 0;
             c.phc = 0;
@@ -379,6 +387,14 @@ pub fn gen_config(profile: Profile, run_seed: u64, index: u64) -> BCfg {
                 2 => Corrupt::Dir,
                 _ => Corrupt::None,
             };
+            if r.chance(50) {
+                // a daemon killed at an arbitrary point (inside an update, one time in five) and
+                // restarted some seconds later
+                c.daemon = vec![
+                    DInc { kill_at: Some(r.below(60 * 20) as u32), panic_at: None, io_err: None, restart_delay_ns: 0, damage_before: false },
+                    DInc { kill_at: None, panic_at: None, io_err: None, restart_delay_ns: r.range(0, 12) * SEC, damage_before: false },
+                ];
+            }
             if matches!(c.init_file, Corrupt::Dir) {
                 // the daemon cannot start over a directory: pairs then compare error outcomes only
                 c.horizon_ns = 15 * SEC;
